@@ -107,7 +107,7 @@ func (g *c03gen) fault() string {
 	g.faultDone = true
 	switch g.faultClass {
 	case "unknown-name":
-		return g.pick("Nope", "i", "Strx", "ints")
+		return g.pick("Nope", "i", "Strx", "ints", "Amb", "Mi", "Ms")
 	case "unknown-field":
 		return g.pick("St.Nope", "PSt.Z", "Sts[0].x", "St.y")
 	case "unknown-func":
@@ -442,7 +442,7 @@ func (g *c03gen) nestedTop(depth int) string {
 // the error paths of the checker — which error is reported first, where, and how the tree is annotated.
 func (g *c03gen) untyped(d int) string {
 	atoms := []string{"I", "I8", "U64", "F64", "F32", "B", "Str", "Any", "Ints", "Strs", "Anys", "Arr", "MSI", "MII", "St", "PSt", "Sts", "My",
-		"Fi", "Nope", "1", "2", "0", "1.5", "\"a\"", "\"k\"", "true", "false", "nil"}
+		"Fi", "Mi", "Amb", "Nope", "1", "2", "0", "1.5", "\"a\"", "\"k\"", "true", "false", "nil"}
 	if len(g.closure) > 0 {
 		atoms = append(atoms, "#", "#", "#")
 	}
@@ -568,8 +568,11 @@ func errClassOf(msg string) string {
 func runErrClass(msg string) string {
 	has := func(s string) bool { return strings.Contains(msg, s) }
 	switch {
-	case has("index out of range"), has("integer divide by zero"), has("nil pointer"), has("invalid memory address"),
-		has("error parsing regexp"), has("memory budget exceeded"), has("slice bounds out of range"), has("cannot fetch") && has("<nil>"):
+	// bounds of every kind are value-dependent, whoever reports them (the runtime, reflect.Value.Index /
+	// Slice / Slice3, expr's own fetch and slice): "index out of range", "slice bounds out of range",
+	// "slice index out of bounds", "string index out of bounds", "array index out of range"
+	case has("out of range"), has("out of bounds"), has("integer divide by zero"), has("nil pointer"), has("invalid memory address"),
+		has("error parsing regexp"), has("memory budget exceeded"), has("cannot fetch") && has("<nil>"):
 		return "value"
 	case has("invalid operation"), has("cannot fetch"), has("cannot use"), has("interface conversion"), has("reflect:"),
 		has("reflect.Value"), has("cannot get"), has("cannot slice"), has("invalid argument for len"), has("is not assignable"):
@@ -986,7 +989,8 @@ func c03TypeErrKey(src, rerr string) string {
 	case strings.Contains(rerr, "slice of unaddressable array"):
 		return "slice-of-array"
 	}
-	return "other"
+	// not one of the known classes: the raw message is part of the key, so that a sweep shows what it is
+	return "other:" + firstLine16(rerr)
 }
 
 func compileRunOpts(src string, env interface{}, opts []expr.Option) (rv realVerdict) {
